@@ -43,6 +43,11 @@
 //     (`hdr := r.Header`, `ctx := r.Context()`) drops the binding; the call is
 //     still an effect: dropped when listed under "ignore"/"pure", recorded in
 //     the trace when "trace" is set, a translation error otherwise;
+//   - with "trace", an assignment to a field of an abstract value
+//     (`r.Out.Host = v`) is the trace entry ("Host=", [v]);
+//   - "func": "Outer#name" selects the function literal bound by
+//     `name := func(…) {…}` inside Outer; captured variables of translatable
+//     type become leading parameters, abstract ones are treated as above;
 //   - []error literals, append on them and errors.Join are lists of optional
 //     texts and "first non-nil" (errors.Join is non-nil iff an element is);
 //   - any other call is *opaque*: its result becomes an extra parameter of the
@@ -1610,6 +1615,17 @@ func (c *fctx) assignCode(lhs ast.Expr, code string, k func() string) string {
 		}
 		return fmt.Sprintf("let %s := %s\n", leanIdent(l.Name), code) + k()
 	case *ast.SelectorExpr:
+		if c.trace && c.t.leanType(c.typeOf(l.X)) == "" {
+			// field of an abstract value (`r.Out.Host = …`): an effect in the trace
+			switch c.t.leanType(c.typeOf(l)) {
+			case "String":
+			case "Int", "Bool":
+				code = "(toString " + code + ")"
+			default:
+				code = "\"_\""
+			}
+			return fmt.Sprintf("let tr := tr ++ [(%q, [%s])]\n", l.Sel.Name+"=", code) + k()
+		}
 		base, ok := l.X.(*ast.Ident)
 		if !ok {
 			fail("nested field assignment %s", c.show(lhs))
@@ -1684,15 +1700,50 @@ func (t *translator) translate(sp TrFunc) (fo *funcOut) {
 	if err != nil {
 		fail("load %s: %v", path, err)
 	}
-	fd := t.findDecl(p, sp.Func)
+	outer, litName, isLit := strings.Cut(sp.Func, "#")
+	fd := t.findDecl(p, outer)
 	if fd == nil {
 		fail("function %s not found in %s", sp.Func, sp.Pkg)
+	}
+	var litSig *types.Signature
+	if isLit {
+		// "Outer#name": the function literal bound by `name := func(…) {…}` in Outer
+		ast.Inspect(fd.Body, func(n ast.Node) bool {
+			if as, ok := n.(*ast.AssignStmt); ok && litSig == nil && len(as.Lhs) == 1 && len(as.Rhs) == 1 {
+				id, _ := as.Lhs[0].(*ast.Ident)
+				if fl, ok := as.Rhs[0].(*ast.FuncLit); ok && id != nil && id.Name == litName {
+					litSig, _ = p.info.Types[fl].Type.(*types.Signature)
+					fd = &ast.FuncDecl{Name: fd.Name, Type: fl.Type, Body: fl.Body}
+				}
+			}
+			return litSig == nil
+		})
+		if litSig == nil {
+			fail("function literal %s not found in %s", sp.Func, sp.Pkg)
+		}
 	}
 	c := &fctx{t: t, p: p, spec: sp, fd: fd, trace: sp.Trace}
 	fo.doc = fmt.Sprintf("%s: %s", p.fset.Position(fd.Pos()).Filename[strings.Index(p.fset.Position(fd.Pos()).Filename, "/internal/")+1:], sp.Func)
 	obj := p.info.Defs[fd.Name].(*types.Func)
 	sig := obj.Type().(*types.Signature)
 	var params []string
+	if litSig != nil {
+		sig = litSig
+		// captured variables of translatable type are leading parameters
+		seen := map[types.Object]bool{}
+		ast.Inspect(fd.Body, func(n ast.Node) bool {
+			id, _ := n.(*ast.Ident)
+			if id == nil {
+				return true
+			}
+			v, ok := p.info.Uses[id].(*types.Var)
+			if ok && !v.IsField() && !seen[v] && v.Parent() != p.pkg.Scope() && (v.Pos() < fd.Pos() || v.Pos() > fd.End()) && t.leanType(v.Type()) != "" {
+				seen[v] = true
+				params = append(params, fmt.Sprintf("(%s : %s)", leanIdent(v.Name()), t.leanType(v.Type())))
+			}
+			return true
+		})
+	}
 	if sig.Recv() != nil {
 		c.recv = sig.Recv().Name()
 		rty := sig.Recv().Type()
